@@ -59,7 +59,7 @@ type reqSpec struct {
 	Parts      []part      `json:"parts"`
 	MeasParam  string      `json:"measurement_param,omitempty"` // imports: ?measurement=
 	Decoys     []decoy     `json:"decoys,omitempty"`
-	Special    string      `json:"special,omitempty"` // empty-measurement | int-measurement
+	Special    string      `json:"special,omitempty"` // empty-measurement | int-measurement | dup-m-other-last | dup-m-other-first (columnar: key "m" twice)
 	FirstRID   int64       `json:"first_rid"`
 }
 
@@ -314,6 +314,44 @@ func (s *reqSpec) msgpackBody() []byte {
 			payload = arr
 		}
 	}
+	if item, ok := payload.(map[string]any); ok && s.Endpoint == "msgpack:columnar" && strings.HasPrefix(s.Special, "dup-m") {
+		// the top-level key "m" twice (no map encoder produces this; hand-encoded): once
+		// with the part's measurement, once with another one. Which of the two a decoder
+		// keeps is its own business - what is checked is that the measurement the rows are
+		// stored under, and the one the WAL record would be replayed to, is the one that
+		// was permission-checked.
+		other := badM
+		if s.Parts[0].Meas == badM {
+			other = okM1
+		}
+		first, last := item["m"], any(other)
+		if s.Special == "dup-m-other-first" {
+			first, last = last, first
+		}
+		delete(item, "m")
+		keys := make([]string, 0, len(item))
+		for k := range item {
+			keys = append(keys, k)
+		}
+		sort.Strings(keys)
+		var buf bytes.Buffer
+		enc := msgpack.NewEncoder(&buf)
+		must := func(err error) {
+			if err != nil {
+				panic(err)
+			}
+		}
+		must(enc.EncodeMapLen(len(item) + 2))
+		must(enc.EncodeString("m"))
+		must(enc.Encode(first))
+		for _, k := range keys {
+			must(enc.EncodeString(k))
+			must(enc.Encode(item[k]))
+		}
+		must(enc.EncodeString("m"))
+		must(enc.Encode(last))
+		return buf.Bytes()
+	}
 	b, err := msgpack.Marshal(payload)
 	if err != nil {
 		panic(err)
@@ -454,7 +492,10 @@ func genSpec(rng *rand.Rand, id int, ep string, hdrDB, queryDB string) *reqSpec 
 		s.DecoyHdr = append(s.DecoyHdr, cands[rng.IntN(len(cands))])
 	}
 	if s.kind() == "msgpack" && rng.IntN(8) == 0 {
-		s.Special = []string{"empty-measurement", "int-measurement"}[rng.IntN(2)]
+		s.Special = []string{"empty-measurement", "int-measurement", "dup-m-other-last", "dup-m-other-first"}[rng.IntN(4)]
+		if strings.HasPrefix(s.Special, "dup-m") && ep != "msgpack:columnar" {
+			s.Special = ""
+		}
 	}
 	sort.Slice(s.Decoys, func(i, j int) bool { return s.Decoys[i].String() < s.Decoys[j].String() })
 	return s
